@@ -112,6 +112,20 @@ def _bounded_sum(iterable: Any, start: Any = 0) -> Any:
         raise ValueError("sum() of sequences is not supported")
     return sum(iterable, start)
 
+def _parse_expression(expression: str) -> ast.Expression:
+    """ast.parse plus the check Python makes when it compiles a call: f(a=1, a=2) is a SyntaxError
+    wherever it occurs in the expression (the parser alone accepts it and the last value would win)."""
+    tree = ast.parse(expression, mode='eval')
+    for node in ast.walk(tree):
+        if isinstance(node, ast.Call):
+            seen: set[str] = set()
+            for kw in node.keywords:
+                if kw.arg is not None and kw.arg in seen:
+                    raise ValueError(f"keyword argument repeated: {kw.arg}")
+                seen.add(kw.arg)
+    return tree
+
+
 class MetabolicPathway(Enum):
     """
     Different metabolic pathways for different substrates.
@@ -517,7 +531,7 @@ class Mitochondria:
 
         Fast but limited - like real glycolysis in the cytoplasm.
         """
-        tree = ast.parse(expression, mode='eval')
+        tree = _parse_expression(expression)
         return self._compute_node(tree.body)
 
     def _krebs_cycle(self, expression: str) -> bool:
@@ -527,7 +541,7 @@ class Mitochondria:
         More complex than glycolysis - like the Krebs cycle in
         the mitochondrial matrix.
         """
-        tree = ast.parse(expression, mode='eval')
+        tree = _parse_expression(expression)
 
         # Normalize lower-case boolean spellings (names only, never text
         # inside string literals or longer identifiers)
@@ -547,7 +561,7 @@ class Mitochondria:
         Most ATP production but also most ROS risk.
         Format: "tool_name(arg1, arg2, kwarg=value)"
         """
-        tree = ast.parse(expression, mode='eval')
+        tree = _parse_expression(expression)
 
         if not isinstance(tree.body, ast.Call):
             raise ValueError("Expected a tool call: tool_name(args)")
